@@ -553,11 +553,21 @@ class AppMutator(BaseMutator):
             #    to the current name.
             if (noop_fields or renames or model_renames or app_label_renames or
                 unique_together or model_meta_indexes):
+                # The fields of a no-op (an AddField followed by a
+                # DeleteField) whose AddField has been reached. Only a
+                # DeleteField following that AddField is part of the no-op.
+                # One preceding it deletes an older field of the same name.
+                pending_noop_fields = set()
+
                 for mutation in mutations:
                     remove_mutation = False
 
                     if isinstance(mutation, AddField):
                         mutation_id = self._get_mutation_id(mutation)
+
+                        if (mutation_id in noop_fields and
+                            mutation in removed_mutations):
+                            pending_noop_fields.add(mutation_id)
 
                         if mutation_id in renames:
                             # Update the field name being added to the
@@ -627,11 +637,12 @@ class AppMutator(BaseMutator):
                     elif isinstance(mutation, DeleteField):
                         mutation_id = self._get_mutation_id(mutation)
 
-                        if mutation_id in noop_fields:
+                        if mutation_id in pending_noop_fields:
                             # This DeleteField is pointless, since the
                             # field it's trying to delete was added in this
                             # batch. Just remove it. We'll have removed all
                             # others related to it by now.
+                            pending_noop_fields.remove(mutation_id)
                             remove_mutation = True
                         elif mutation_id in renames:
                             # The field has been renamed, so update the name
@@ -650,12 +661,14 @@ class AppMutator(BaseMutator):
                             mutation,
                             mutation.new_field_name)
 
-                        if old_mutation_id in noop_fields:
+                        if old_mutation_id in pending_noop_fields:
                             # Rename the entry in noop_fields so that we
                             # can properly handle future mutations
                             # referencing that field.
-                            noop_fields.remove(old_mutation_id)
+                            noop_fields.discard(old_mutation_id)
                             noop_fields.add(new_mutation_id)
+                            pending_noop_fields.remove(old_mutation_id)
+                            pending_noop_fields.add(new_mutation_id)
                             remove_mutation = True
 
                         if old_mutation_id in renames:
